@@ -210,6 +210,16 @@ def gen_c11(rng, thorough):
             for _ in range(cap + DRAIN_AFTER_CANCEL + 2):
                 post += ["t%d" % freq, "r0"]
             sc.append(emit_cfg(cap, freq, "pure", (), "drain") + " | " + " ".join(pre + ["x"] + post + ["z"]))
+    # a context that is ALREADY cancelled when the source is created (cfg pre=1; the script's first move is the cancel the
+    # model sees: a goroutine started under a cancelled context does what one cancelled before its first step does)
+    for cap in caps:
+        for fn in (1, 3):
+            sc.append(unfold_cfg(cap, fn, rng.choice([1, 5, 17]), rng.choice(["pure", "lift", "try"]), (), "drain") + " pre=1 | " + " ".join(["x"] + ["r0", "r1"] * (cap + 4) + ["r0"] * DRAIN_AFTER_CANCEL + ["r1", "z"]))
+        for freq in freqs[:2]:
+            post = []
+            for _ in range(cap + 4):
+                post += ["t%d" % freq, "r0", "r1"]
+            sc.append(emit_cfg(cap, freq, rng.choice(["pure", "lift", "try"]), (), "drain") + " pre=1 | " + " ".join(["x"] + post + ["r1", "z"]))
     for _ in range(2500 if thorough else 300):
         cap, fn, seed = rng.choice(caps), rng.choice([1, 2, 3]), rng.choice([0, 1, 2, 5, 17, 999999])
         mode = rng.choice(["pure", "pure", "lift", "try"])
